@@ -140,6 +140,8 @@ type W struct {
 	// RO is set while arguments of the current case live in a read-only mapping (props/ro.go): a memory fault inside
 	// a library function is then a store into an argument.
 	RO bool
+	// ROArena / ROGuard are the address ranges of that mapping and of the inaccessible page behind it.
+	ROArena, ROGuard [2]uintptr
 
 	heartbeat atomic.Uint64
 	tid       atomic.Int64
@@ -308,6 +310,12 @@ func (w *W) fail(sig string, detail D, inconclusive bool) {
 		Detail: b, Count: 1, Inconclusive: inconclusive})
 }
 
+// faultIn reports whether a recovered value is a memory fault at an address inside [rng[0], rng[1]).
+func faultIn(r interface{}, rng [2]uintptr) bool {
+	ae, ok := r.(interface{ Addr() uintptr })
+	return ok && rng[1] > rng[0] && ae.Addr() >= rng[0] && ae.Addr() < rng[1]
+}
+
 // Idx is the index of the case being executed (drivers derive deterministic per-case choices from it).
 func (w *W) Idx() int { return w.idx }
 
@@ -330,6 +338,9 @@ func (w *W) runCase(f *Family, idx int) {
 				"obj": fmt.Sprintf("%.600v", w.Obj), "origin": origin, "stack": trimStack(st)}
 			msg := fmt.Sprint(r)
 			switch {
+			case w.RO && faultIn(r, w.ROGuard) && (strings.Contains(origin, "github.com/openacid/low") || strings.Contains(origin, "/repo/")):
+				d["note"] = "the argument ends exactly at the end of its mapping (the next page is inaccessible): the library accessed memory beyond the end of an argument"
+				w.Fail("access-beyond-the-end-of-an-argument/"+f.Name+"/"+w.Op, d)
 			case w.RO && strings.Contains(msg, "invalid memory address") && (strings.Contains(origin, "github.com/openacid/low") || strings.Contains(origin, "/repo/")):
 				d["note"] = "the arguments of this call live in a read-only mapping: the library stored into an argument (possibly meaning to undo it before returning)"
 				w.Fail("store-into-read-only-argument/"+f.Name+"/"+w.Op, d)
